@@ -2,7 +2,7 @@
 
    calculate_path hands contiguous slices `vertices[start..=i]` of the
    control points to the sub-path routines; a slice of a list of covered points
-   ([BezierIEEE.point_ok E]) with n * 2^E <= 2^21 is again such a list,
+   ([BezierIEEE.point_ok E]) with n * 2^E <= 2^22 is again such a list,
    so every Bezier subdivision it starts returns within the pinned fuel
    ([BezierIEEETight.T01g_ieee_bounded_tight]); with an atan2 that has its values in
    [-PI, PI] the theta loop returns as well (Proofs/ThetaLoop.v), and nothing
@@ -86,7 +86,7 @@ End PathQ.
 (* ---------- the slices of covered control points ---------- *)
 
 Definition covered (E : Z) (sub : list Pos) : Prop :=
-  Forall (point_ok E) sub /\ (Z.of_nat (length sub) * 2 ^ E <= 2 ^ 21)%Z.
+  Forall (point_ok E) sub /\ (Z.of_nat (length sub) * 2 ^ E <= 2 ^ 22)%Z.
 
 Lemma Forall_firstn {A} (P : A -> Prop) n : forall l, Forall P l -> Forall P (firstn n l).
 Proof.
@@ -113,7 +113,7 @@ Qed.
 (* Curve::new / BorrowedCurve::new at the pure level: a value *)
 Theorem curve_L1_bounded lm mode pts e E :
   atan2_in_range lm -> (0 <= E)%Z ->
-  (Z.of_nat (length pts) * 2 ^ E <= 2 ^ 21)%Z ->
+  (Z.of_nat (length pts) * 2 ^ E <= 2 ^ 22)%Z ->
   Forall (fun p => point_ok E (pc_pos p)) pts ->
   exists c, curve_L1 lm bezier_fuel mode pts e = Done c.
 Proof.
